@@ -77,6 +77,44 @@ def tool_env(tool, target_dir, miri_hooks=False, miri_seed=None, many=None, extr
     return env
 
 
+MARKER_SEED = 987654321
+
+
+def parse_miri_command(stderr):
+    """-> {"cwd", "env", "argv"} of the `miri` driver invocation cargo-miri printed, argv up to
+    (excluding) the -Zmiri-* flags and the `--` separator; None if it cannot be recovered."""
+    import shlex
+    lines = [l for l in stderr.splitlines() if l.startswith("[cargo-miri runner] running command: ")]
+    if not lines:
+        return None
+    try:
+        tok = shlex.split(lines[-1].split("running command: ", 1)[1])
+        if tok[0] != "cd" or tok[2] != "&&" or tok[3] != "env":
+            return None
+        cwd, i, unset, setenv = tok[1], 4, [], {}
+        while i < len(tok):
+            t = tok[i]
+            if t == "-u":
+                unset.append(tok[i + 1])
+                i += 2
+            elif re.match(r"^[A-Za-z_][A-Za-z0-9_]*=", t):
+                k, v = t.split("=", 1)
+                setenv[k] = v
+                i += 1
+            else:
+                break
+        prog, args = tok[i], tok[i + 1:]
+        if not prog.endswith("miri") or "--" not in args or ("-Zmiri-seed=%d" % MARKER_SEED) not in args:
+            return None
+        j = len(args) - 1 - args[::-1].index("--")
+        base = [a for a in args[:j] if not a.startswith("-Zmiri-")]
+        for k in ("MIRIFLAGS", "MIRI_VERBOSE"):
+            setenv.pop(k, None)
+        return {"cwd": cwd, "unset": unset, "env": setenv, "argv": [prog] + base}
+    except Exception:
+        return None
+
+
 def miri_cmd(args):
     return ["cargo", "+nightly", "miri", "run", "-q", "-p", "vq-sync", "--bin", "vq-sync", "--"] + args
 
@@ -86,12 +124,20 @@ def build(tool, target_dir, miri_hooks):
     t0 = time.time()
     env = tool_env(tool, target_dir, miri_hooks)
     if tool == "miri":
+        # Build through cargo once. MIRI_VERBOSE makes cargo-miri print the final `miri ...`
+        # command line; every (scenario, seed) process then runs that command directly: going
+        # through `cargo miri run` each time costs seconds and serialises on the build-dir lock
+        # (measured under load: 49 s via cargo vs 4.5 s direct). The marker seed is replaced.
+        env["MIRIFLAGS"] = "-Zmiri-disable-isolation -Zmiri-seed=%d" % MARKER_SEED
+        env["MIRI_VERBOSE"] = "2"
         r = subprocess.run(miri_cmd(["--list"]), cwd=WORKSPACE, env=env, capture_output=True, text=True)
         if r.returncode != 0:
             sys.stderr.write(r.stderr[-4000:])
             raise SystemExit("miri build failed")
         listing = r.stdout
-        prefix = None
+        prefix = parse_miri_command(r.stderr)
+        if prefix is None:
+            log("could not recover the direct miri command line; falling back to `cargo miri run` per process")
     else:
         if tool == "tsan":
             cmd = ["cargo", "+nightly", "build", "-Zbuild-std", "--release", "--target", TARGET, "-p", "vq-sync"]
@@ -341,10 +387,20 @@ def run_one(job):
     if opts.get("fp") is not None:
         args += ["--fp", str(opts["fp"])]
     env = tool_env(tool, target_dir, opts["miri_hooks"], miri_seed=seed, extra_miriflags=opts["miriflags"])
-    cmd = miri_cmd(args) if tool == "miri" else prefix + args
+    cwd = WORKSPACE
+    if tool == "miri" and prefix:
+        for k in prefix["unset"]:
+            env.pop(k, None)
+        env.update(prefix["env"])
+        cwd = prefix["cwd"]
+        cmd = prefix["argv"] + env["MIRIFLAGS"].split() + ["--"] + args
+    elif tool == "miri":
+        cmd = miri_cmd(args)
+    else:
+        cmd = prefix + args
     t0 = time.time()
     try:
-        r = subprocess.run(cmd, cwd=WORKSPACE, env=env, capture_output=True, text=True, timeout=opts["timeout"])
+        r = subprocess.run(cmd, cwd=cwd, env=env, capture_output=True, text=True, timeout=opts["timeout"])
         out, err, code, timed_out = r.stdout, r.stderr, r.returncode, False
     except subprocess.TimeoutExpired as e:
         out = e.stdout.decode(errors="replace") if isinstance(e.stdout, bytes) else (e.stdout or "")
@@ -434,8 +490,11 @@ def merge(tool, results, build_secs, wall, opts):
 
     seen_sig = {}
     for r in results:
-        count("processes.%s" % r["status"])
-        count("seeds_run.%s" % r["scenario"])
+        if r["scenario"] == "_group":
+            count("group_processes.%s" % r["status"])
+        else:
+            count("processes.%s" % r["status"])
+            count("seeds_run.%s" % r["scenario"])
         out["maxima"]["process_secs"] = max(out["maxima"].get("process_secs", 0), round(r["secs"], 2))
         s = r["summary"]
         if s:
@@ -513,6 +572,10 @@ def main():
     ap.add_argument("--watchdog-ms", type=int, default=None, help="in-process lost-wake-up watchdog (default 20000; 4000 for known-defect scenarios)")
     ap.add_argument("--fp", type=int, default=None, help="failpoint perturbation per mille (default: binary's own, 250)")
     ap.add_argument("--target-dir", default=None)
+    ap.add_argument("--group", action="store_true",
+                    help="run all (non known-defect) scenarios of a seed in ONE process first and fall back to one "
+                         "process per scenario only for seeds whose group process was not clean; ~10x cheaper under "
+                         "Miri where process start-up dominates (default: strictly one scenario+seed per process)")
     ap.add_argument("--many-seeds", action="store_true", help="miri only: one -Zmiri-many-seeds process per scenario chunk")
     ap.add_argument("--miri-hooks", action="store_true", help="miri: build with the H3 failpoints compiled in (default: production code)")
     ap.add_argument("--miriflags", default="", help="extra MIRIFLAGS")
@@ -556,6 +619,36 @@ def main():
                     e = min(hi, s + chunk)
                     futs.append(pool.submit(run_many_seeds, tool, target_dir, sc, s, e, opts))
                     s = e
+        elif a.group:
+            grouped = [n for n in chosen if n not in known]
+            single = [n for n in chosen if n in known]
+            gfuts = {}
+            for seed in range(lo, hi):
+                o = dict(opts)
+                o["timeout"] = opts["timeout"] * max(1, len(grouped) // 4)
+                gfuts[pool.submit(run_one, (tool, prefix, target_dir, ",".join(grouped), seed, o))] = seed
+                for sc in single:
+                    o = dict(opts)
+                    if a.watchdog_ms is None:
+                        o["watchdog_ms"] = 4000
+                    if tool != "miri" and a.iters is None:
+                        o["iters"] = 50
+                    futs.append(pool.submit(run_one, (tool, prefix, target_dir, sc, seed, o)))
+            for f in concurrent.futures.as_completed(list(gfuts)):
+                r = f.result()
+                seed = gfuts[f]
+                if r["status"] == "clean":
+                    # one clean process covered every scenario of the group for this seed
+                    s = r["summary"]
+                    for sc in grouped:
+                        results.append({"scenario": sc, "seed": seed, "secs": r["secs"] / len(grouped), "summary": None,
+                                        "status": "clean", "report": None, "note": None})
+                    results.append({"scenario": "_group", "seed": seed, "secs": r["secs"], "summary": s, "status": "clean",
+                                    "report": None, "note": None})
+                else:
+                    log("seed %d: group process %s -> re-running its %d scenarios one per process" % (seed, r["status"], len(grouped)))
+                    for sc in grouped:
+                        futs.append(pool.submit(run_one, (tool, prefix, target_dir, sc, seed, dict(opts))))
         else:
             for seed in range(lo, hi):
                 for sc in chosen:
